@@ -103,7 +103,7 @@ void harness (void)
 }
 #else
 /* ---------------- do_reading ---------------- */
-struct c15_read_ghost { _Bool may_read_fds, outstanding, buffer_out; unsigned offered, pending, cap; int *offered_ptr; unsigned fd_reads, plain_reads, returns; int max_to_read; _Bool watch_enabled, needs_decoding; } GR;
+struct c15_read_ghost { _Bool may_read_fds, outstanding, buffer_out; unsigned offered, pending, cap; int *offered_ptr; unsigned fd_reads, plain_reads, returns; int max_to_read; _Bool watch_enabled, needs_decoding; int last_ret; unsigned last_got; } GR;
 static DBusString s_buf; static int loader_fds[8];
 void verif_stub_check_read_watch (DBusTransport *t) {}
 dbus_bool_t dbus_watch_get_enabled (DBusWatch *w) { return GR.watch_enabled; }
@@ -125,7 +125,7 @@ int _dbus_read_socket_with_unix_fds (DBusSocket fd, DBusString *buffer, int coun
 { PRE(GI.can_fd && GR.may_read_fds, "fd-accepting read: only where negotiated and only at a message boundary the loader allows");
   PRE(GR.outstanding && fds == GR.offered_ptr && n_fds != NULL && *n_fds == GR.offered, "fd-accepting read: descriptors go only into the loader's own array, within its free capacity");
   PRE(buffer == &s_buf && GR.buffer_out && count <= GR.max_to_read, "fd-accepting read: into the loader buffer, at most max_to_read bytes");
-  GR.fd_reads++; REACH("read-with-fds"); unsigned room = *n_fds; unsigned got = nondet_unsigned(); __CPROVER_assume(got <= room); *n_fds = got; return nondet_int(); }
+  GR.fd_reads++; REACH("read-with-fds"); unsigned room = *n_fds; unsigned got = nondet_unsigned(); __CPROVER_assume(got <= room); *n_fds = got; GR.last_got = got; GR.last_ret = nondet_int(); return GR.last_ret; }
 int _dbus_read_socket (DBusSocket fd, DBusString *buffer, int count)
 { PRE(!(GI.can_fd && GR.may_read_fds) || GR.needs_decoding, "plain read: only when descriptors cannot arrive here");
   GR.plain_reads++; REACH("read-plain"); return nondet_int(); }
@@ -157,6 +157,7 @@ void harness (void)
   __CPROVER_assert(GR.fd_reads <= 1 && GR.returns == GR.fd_reads, "post2 every fd-accepting read is followed by exactly one return of the array");
   __CPROVER_assert(IMP(!GI.can_fd, GR.fd_reads == 0 && GR.pending == pending0), "post3 no descriptor is accepted on a transport that did not negotiate fd passing");
   __CPROVER_assert(IMP(!GR.may_read_fds, GR.fd_reads == 0 && GR.pending == pending0), "post4 no descriptor is accepted where the loader forbids it (middle of a message)");
-  REACH("returned"); if (GR.pending > pending0) REACH("fds-added"); if (!ret) REACH("oom");
+  __CPROVER_assert(IMP(GR.fd_reads == 1, GR.pending == pending0 + (GR.last_ret < 0 ? 0 : GR.last_got)), "post5 the loader keeps exactly the descriptors the read reported, none after a failed read");
+  REACH("returned"); if (GR.pending > pending0) REACH("fds-added"); if (!ret) REACH("oom"); if (GR.fd_reads == 1 && GR.last_ret < 0) REACH("fd-read-failed");
 }
 #endif
